@@ -32,7 +32,7 @@ func VerifC02StreamSetup() {
 // The result stream (what csvq writes to --out or to standard output for a SELECT) in each of the six
 // re-readable formats: a two-column, two-record result whose first record holds NULLs or texts of 0..1
 // (2) symbolic bytes over the special characters is encoded by the real statement path (EncodeView
-// and the ending line break) with --line-break LF or CRLF, --enclose-all and --without-header on or
+// and the ending line break) with --line-break LF, CRLF or CR, --enclose-all and --without-header on or
 // off; the bytes, stored as a file, load again under the same settings (--no-header where the header
 // was left out) with the same records, fields, header and cell texts - or the SELECT reports an error.
 func VerifC02ResultStream() {
@@ -47,7 +47,7 @@ func VerifC02ResultStream() {
 		}
 		verifAssume(!na && !nb && len(ta) > 0 && len(tb) > 0)
 	}
-	crlf := verifBool("crlf")
+	lb := verifChoice("line-break", 3) // LF, CRLF, CR
 	encloseAll := format == 0 && verifBool("enclose-all")
 	withoutHeader := (format == 0 || format == 1) && verifBool("without-header")
 	// the stream in UTF-8, or (CSV, TSV, LTSV, fixed-length) in UTF-16 little endian
@@ -59,8 +59,11 @@ func VerifC02ResultStream() {
 	if format == 1 {
 		tx.Flags.ExportOptions.Delimiter = '\t'
 	}
-	if crlf {
+	switch lb {
+	case 1:
 		tx.Flags.ExportOptions.LineBreak = text.CRLF
+	case 2:
+		tx.Flags.ExportOptions.LineBreak = text.CR
 	}
 	tx.Flags.ExportOptions.EncloseAll = encloseAll
 	if utf16 {
